@@ -147,7 +147,7 @@ pub fn run(ctx: &Ctx) {
     // long messages: the genuine one is accepted, any change in its tail is rejected
     let mut longm: Vec<(u8, u32, u8)> = Vec::new();
     for hi in 0..6u8 {
-        for len in [65_535u32, 65_536, 70_001, 200_000] {
+        for len in [65_535u32, 65_536, 70_001, 131_070, 131_071, 196_605, 200_000] {
             for variant in 0..3u8 {
                 longm.push((hi, len, variant));
             }
